@@ -154,6 +154,7 @@ pub fn profile(id: &str) -> Option<Profile> {
             o.snapshot = true;
             o.need_flush = true;
             o.readback = false;
+            o.par_fault_pct = 15;
             (Kind::Engine, 5000, 300_000)
         }
         "C04" => (Kind::Crash, 2000, 40_000),
